@@ -611,8 +611,13 @@ def rangeSpec (name : String) (kinds : List String) : RangeSpec :=
   | _ => {}
 
 /-- first violated constraint; `a` is the absolute slack `C·ε·k·(hi−lo)` (orders: relative to the magnitudes) -/
-def rangeCheck (c : Ctx) (name : String) (kinds : List String) (k : Candle Rat) (rv : List Rat) : Option String :=
+def rangeCheck (c : Ctx) (name : String) (kinds : List String) (k : Candle Rat) (rv : List Rat) (srcs : List Source := []) : Option String :=
   let rs := rangeSpec name kinds
+  -- the scale of what the bounds are built from: prices, or volumes / price·volume when the configured source is one
+  let srcScale : Rat := srcs.foldl (fun m s => match s with
+    | .volume => ratMax m c.Mv
+    | .volumedPrice => ratMax m (c.M * c.Mv)
+    | _ => m) c.M
   let bad1 := rs.intervals.findSome? fun (i, lo, hi) =>
     match rv[i]? with
     | none => none
@@ -622,7 +627,9 @@ def rangeCheck (c : Ctx) (name : String) (kinds : List String) (k : Candle Rat) 
   let bad2 := rs.orders.findSome? fun (i, j) =>
     match rv[i]?, rv[j]? with
     | some x, some y =>
-      let a := c.allow (ratMax (ratAbs x) (ratAbs y))
+      -- slack on the scale of the inputs, not of the two values: an average of non-negative data that has gone to zero holds
+      -- rounding residue of either sign, and `ma·(1+k)` / `ma·(1−k)` swap when it is negative
+      let a := c.allow (ratMax (ratMax (ratAbs x) (ratAbs y)) srcScale)
       if x < y - a then some s!"v{i}:order v{i} = {ratStr x} < v{j} = {ratStr y}" else none
     | _, _ => none
   let bad3 : Option String := match name with
